@@ -63,8 +63,19 @@ func replyCompleteNoModel(proto string, op wire.Op, buf []byte) bool {
 		if proto == "text" || op.Noop {
 			return o.Term >= 1
 		}
-		// single non-quiet GET
-		return len(o.Values)+len(o.Misses) >= 1
+		// GETQ* GET: the batch ends with the answer (hit or miss) to its last, non-quiet key
+		last := len(op.Keys) - 1
+		for _, v := range o.Values {
+			if v.Idx == last {
+				return true
+			}
+		}
+		for _, m := range o.Misses {
+			if m == last {
+				return true
+			}
+		}
+		return false
 	}
 	return o.Status != "none"
 }
